@@ -504,6 +504,33 @@ func (w *World) react(ep *Endpoint, pr *ProbeRec, now time.Duration) {
 	reachedTarget := false
 	for ri := range hp.Replies {
 		r := &hp.Replies[ri]
+		if fb, _ := splitForm(r.Form); ep.flow.TargetByArrival && isSackProbe && (fb == "sack" || fb == "plainack") {
+			// the target sees this probe when its answer is due; the answer is built then, from what
+			// the target has received by then
+			first := !reachedTarget
+			reachedTarget = true
+			w.schedule(event{at: now + time.Duration(r.DelayUs)*time.Microsecond, kind: "fn", fn: func(at time.Duration) {
+				if first {
+					ep.sackSeqs = append(ep.sackSeqs, pr.L4.Seq)
+				}
+				b, ok := w.buildReply(ep, pr, hp, r)
+				if !ok {
+					w.stat("reply.inapplicable")
+					return
+				}
+				o := PktOrigin{Flow: ep.Actor, TTL: ttl, Form: r.Form, Perturb: r.Perturb, Garbage: r.Garbage}
+				w.inject(b, at, o)
+				w.stat("pkt.form." + fb)
+				w.stat("sack.target-by-arrival")
+				for d := 1; d <= r.Dup; d++ {
+					o2 := o
+					o2.Copy = d
+					w.inject(append([]byte(nil), b...), at+time.Duration(int64(d)*max64(r.DupGapUs, 1))*time.Microsecond, o2)
+					w.stat("fault.duplicate")
+				}
+			}})
+			continue
+		}
 		b, ok := w.buildReply(ep, pr, hp, r)
 		if !ok {
 			w.stat("reply.inapplicable")
@@ -531,7 +558,7 @@ func (w *World) react(ep *Endpoint, pr *ProbeRec, now time.Duration) {
 			w.stat("fault.duplicate")
 		}
 	}
-	if isSackProbe && reachedTarget {
+	if isSackProbe && reachedTarget && !ep.flow.TargetByArrival {
 		ep.sackSeqs = append(ep.sackSeqs, pr.L4.Seq)
 	}
 }
